@@ -37,6 +37,7 @@ func c11ExtraPool() [][]byte {
 	for _, r := range uni.AllRoles {
 		out = append(out, []byte(r))
 	}
+	out = append(out, wrapResidues()...)
 	return out
 }
 
@@ -364,6 +365,7 @@ func c11Worker(tier Tier) int {
 		// lists long enough to pass the argument-count guards: length 4..5 (4..6 thorough) over
 		// {b0, 1, 2, 2^16, the two wrap-around residues, "F", 0}
 		cpool := [][]byte{uni.B0, {1}, {2}, {1, 0, 0}, pool[9], pool[10], []byte("F"), {0}}
+		residues := wrapResidues()
 		var clists [][][]byte
 		maxL := 5
 		if tier.Thorough() {
@@ -382,6 +384,12 @@ func c11Worker(tier Tier) int {
 			}
 		}
 		cgen(nil)
+		// every wrap-around residue as the count of a sender-side and a destination-side layout
+		for _, r := range residues {
+			for _, tail := range [][][]byte{{[]byte("F"), {0}, {1}}, {[]byte("F"), {0}, {1}, {1}}, {[]byte("F"), {1}}, {[]byte("F")}} {
+				clists = append(clists, append([][]byte{uni.B0, r}, tail...), append([][]byte{r}, tail...))
+			}
+		}
 		for _, args := range clists {
 			for _, p := range []who{{uni.A0, uni.A0}, {uni.ESDT, uni.B0}, {uni.C1, uni.B0}} {
 				act := world.Action{Kind: world.ActCall, Caller: p.caller, Recipient: p.recipient, Func: vmcommon.BuiltInFunctionMultiESDTNFTTransfer, Args: args, Gas: 1 << 62}
